@@ -13,6 +13,7 @@ const PropertyInfo kInfo = {
     "REGISTER (4 ids; canonical, upper-case, bad hex, short, CRLF; duplicate ids, re-register, re-register while claimed), CONNECT (valid, claimed peer, unknown id, self, own id, "
     "upper-case target, from a registered session; extra blanks, CRLF; optimistic = line+identity(+data) in one write), identity whole / split / with trailing data, "
     "data writes of tagged probe bytes (0x80|sender<<4|position; sizes 1..600 or {1,2,31,32,33,4095,4096,4097,8192,12289}) or protocol-looking text, junk/PONG/blank lines, "
+    "back-pressure (a bridged client stops reading — half of the cases use 4 KiB receive buffers —, its partner writes 64 KiB..6 MiB probes (beyond the 4 MiB a loopback socket buffers), the reader resumes later; all readers resume before the final check), "
     "half-typed lines finished later, close / reset / half-close of any client at any stage; (op&0xC0)==0xC0 batches the action with the next one (no loop step in between). "
     "After every (un-batched) action the loop is stepped to quiescence and the invariants are evaluated: (I1) bridge bytes are an in-order prefix of what the partner wrote after its "
     "bridge point, (I2) a client without a bridge reads only relay text lines and BEGIN only as a registered target of an accepted connector that wrote its identity and asked for an id "
@@ -31,6 +32,7 @@ void run_case(Ctx& c) {
     d.setup(2 + t.h(0) % 4);
     std::size_t n = std::min<std::size_t>(t.nrec(), 64);
     for (std::size_t i = 0; i < n; ++i) d.apply(t.r(i));
+    d.resume_all();
     d.settle();
     if (d.had_bystander_bridge) c.nt("bridge_with_bystander");
     if (d.bridges) c.label("bridge");
